@@ -527,6 +527,9 @@ def c14(run):
     run.gen_replay("Gen_ISA", c, ["replay-isa"], "C14:isa")
     dumps, n = real_dumps(run, "C14:real", dump_sources(run)[1:4], 1500 if run.quick else 12000, stride=11 if run.quick else 3)
     tlc_on_dumps(run, "C14:layout", dumps, n, ("RoundTrip",))
+    # dumps whose sizes and lengths need 2- and 3-byte varints (string constants / identifiers / offsets of up to 2400 bytes)
+    d2, n2 = real_dumps(run, "C14:sizes", [("Gen_Format", gen_cfg(dict(Scope="sizes", MaxConsts=1)), {})], 400, stride=1, maxlen=12000)
+    tlc_on_dumps(run, "C14:sizes-layout", d2, n2, ("RoundTrip",))
     run.exhaustive = False
 
 
